@@ -22,17 +22,17 @@ from vfw.core import Result
 
 ID = 'C06'
 LEVEL = 'exploration'
-TECHNIQUE = ('exhaustive enumeration of library unit pairs / class triples / prefixed atoms + Hypothesis grammar of '
+TECHNIQUE = ('exhaustive enumeration of library unit pairs / class triples / prefixed atoms + Hypothesis-driven grammar of '
              'composite unit expressions with lookup histories, independent Decimal/Fraction evaluator of '
              'unit_library.ini as reference')
 RULE = ("case = {kind: pair|triple|expr|anchor, unit expression strings, values x, warm: strings looked up first on a "
         "freshly imported library}. Exhaustive: all pairs of the 140 library names, both directions (fresh table and warmed "
         "table), all triples inside each dimension class in every ordering, all 26x140 "
         "prefix+unit spellings alone and after looking up every proper suffix of the spelling that is itself a "
-        "unit. Random: Hypothesis draws expression trees (atoms = library units with optional prefix; * / "
+        "unit. Random: Hypothesis draws a 192-byte string that is decoded (two bytes per decision) into expression trees (atoms = library units with optional prefix; * / "
         "**k k in +-1..3; roots built so that dimensions stay integral; number factors incl. exponent literals), "
         "partners of the same dimension by respelling every atom inside its dimension class, values from "
-        "{0,+-1,+-1e-30,+-1e30,offsets} and floats, and warm lists from hot prefixed atoms, suffix readings of the "
+        "{0,+-1,+-1e-30,+-1e30,offsets} and +-d.ddd*10**(-6..5), and warm lists from hot prefixed atoms, suffix readings of the "
         "case's own tokens and the case's own sub-expressions. Non-trivial = a compatible pair/triple with factor "
         "ratio != 1, or an offset unit, or a prefixed atom, or an expression of operator depth >= 2. Distinct = "
         "distinct canonical JSON of the case.")
@@ -56,8 +56,8 @@ ASSUMPTIONS = [
 EXHAUSTIVE = {'quick': False, 'thorough': False}
 BOUND = {'quick': 'all 9870 unordered library pairs (both directions each) on a fresh and on a warmed table; all '
                   'multisets of 3 inside each dimension class (every ordering each); 3640 prefixed atoms fresh + '
-                  'suffix-warmed; 16x2500 random composite cases of depth<=3',
-         'thorough': 'same enumerations; 16x30000 random composite cases with Hypothesis shrinking'}
+                  'suffix-warmed; 12x6000 random composite cases of depth<=3',
+         'thorough': 'same enumerations; 16x60000 random composite cases with Hypothesis shrinking'}
 MIN_CLASS_FRACTION = {'compatible': 0.15, 'composite': 0.1, 'prefixed': 0.15, 'warm': 0.15, 'offset': 0.005,
                       'root': 0.01, 'number': 0.02}
 UNIT_TIMEOUT = {'quick': 900, 'thorough': 7200}
@@ -553,6 +553,19 @@ ANCHORS = [
     (1.0, 'pc', 'm', 3.0856775814913673e16), (1.0, 'dam', 'm', 10.0), (1.0, 'as', 's', 1e-18), (1.0, 'N', 'kg*m/s**2', 1.0),
     (1.0, 'W', 'kg*m**2/s**3', 1.0), (1.0, 'Hz', '1/s', 1.0), (1.0, 'ohm', 'kg*m**2/(s**3*A**2)', 1.0),
     (1.0, 'arc_second', 'deg', 1.0 / 3600.0), (1.0, 'qt', 'cup', 4.0), (1.0, 'min', 's', 60.0),
+    (1.0, 'psi', 'psf', 144.0), (1.0, 'lbm', 'lb', 1.0), (1.0, 'tbsp', 'tsp', 3.0), (1.0, 'floz', 'tbsp', 2.0),
+    (1.0, 'cup', 'floz', 8.0), (1.0, 'pt', 'floz', 16.0), (1.0, 'qt', 'pt', 2.0), (12.0, 'mo', 'yr', 1.0),
+    (1.0, 'arc_minute', 'arc_second', 60.0), (1.0, 'deg', 'arc_minute', 60.0), (1.0, 'nmi', 'NM', 1.0),
+    (1.0, 'knot', 'kn', 1.0), (1.0, 'degK', 'K', 1.0), (1.0, 'MMBtu', 'Btu', 1.0e6), (1.0, 'u', 'Da', 1.0),
+    (1.0, 'ua', 'AU', 1.0), (1.0, 'week', 'wk', 1.0), (1.0, 'month', 'mo', 1.0), (1.0, 'year', 'yr', 1.0),
+    (1.0, 'yr', 'a', 1.0), (1.0, 'kat', 'mol/s', 1.0), (1.0, 'Gy', 'J/kg', 1.0), (1.0, 'Sv', 'J/kg', 1.0),
+    (1.0, 'lx', 'lm/m**2', 1.0), (1.0, 'lm', 'cd*sr', 1.0), (1.0, 'T', 'Wb/m**2', 1.0), (1.0, 'Wb', 'V*s', 1.0),
+    (1.0, 'H', 'Wb/A', 1.0), (1.0, 'S', 'A/V', 1.0), (1.0, 'F', 'C/V', 1.0), (1.0, 'C', 'A*s', 1.0),
+    (1.0, 'V', 'W/A', 1.0), (1.0, 'J', 'N*m', 1.0), (1.0, 'Pa', 'N/m**2', 1.0), (1.0, 'Bq', '1/s', 1.0),
+    (1.0, 'g', 'kg', 0.001), (1.0, 'erg', 'J', 1.0e-7), (1.0, 'dyn', 'N', 1.0e-5), (10.0, 'P', 'Pa*s', 1.0),
+    (1.0, 'St', 'cm**2/s', 1.0), (1.0, 'Ang', 'nm', 0.1), (1.0, 'b', 'fm**2', 100.0), (1.0, 'Mx', 'Wb', 1.0e-8),
+    (1.0, 'gauss', 'T', 1.0e-4), (1.0, 'drag_count', 'unitless', 1.0e-4), (1.0, 'ph', 'lx', 1.0e4),
+    (1.0, 'sb', 'cd/cm**2', 1.0), (1.0, 'rps', 'rpm', 60.0), (1.0, 'degR', 'K', 5.0 / 9.0), (1.0, 'eV', 'e*V', 1.0),
 ]
 
 
@@ -655,106 +668,125 @@ ROOT_TEXT = {2: ['0.5', '(1/2)', '(1./2)'], 3: ['(1/3)', '(1./3)', '0.3333333333
 VALUES = [0.0, 1.0, -1.0, 1e-30, -1e-30, 1e30, -1e30, 273.15, -459.67, 100.0]
 
 
-def strategy():
-    from hypothesis import strategies as st
-    _, L = _ctx()
-    nonoffset = [n for n in L.names if L.lib_unit(n).offset == 0]
-    offset_names = [n for n in L.names if L.lib_unit(n).offset != 0]
-    common = [n for n in COMMON if n in L.nameset and n in nonoffset]
-    prefixes = list(L.prefixes)
-    by_dim = L.classes_by_dimension(nonoffset)
-    temp_class = [n for n in L.names if L.lib_unit(n).powers == L.lib_unit('K').powers]
-    hot = [p for p in HOT_PREFIXES if p in L.prefixes]
+class _Src(object):
+    """Decision source decoded from one Hypothesis-drawn byte string (two bytes per decision), in the manner of a
+    fuzzer's data provider: one draw per case keeps generation cheaper than the oracle."""
 
-    def prefix(draw):
-        return draw(st.sampled_from(hot)) if draw(st.integers(0, 2)) else draw(st.sampled_from(prefixes))
+    def __init__(self, data):
+        self.d = data
+        self.i = 0
 
-    def atom(draw, pool=None):
+    def below(self, n):
+        k = self.i % (len(self.d) - 1)
+        v = self.d[k] * 256 + self.d[k + 1] + 7919 * (self.i // (len(self.d) - 1))
+        self.i += 2
+        return v % n
+
+    def pick(self, seq):
+        return seq[self.below(len(seq))]
+
+    def bit(self):
+        return self.below(2) == 1
+
+
+def build_case(data, G):
+    """bytes -> case (pure)."""
+    L = G['L']
+    src = _Src(data)
+    hot, prefixes, common, nonoffset = G['hot'], G['prefixes'], G['common'], G['nonoffset']
+    by_dim, temp_class, offset_names = G['by_dim'], G['temp_class'], G['offset_names']
+
+    def prefix():
+        return src.pick(hot) if src.below(3) else src.pick(prefixes)
+
+    def atom(pool=None):
         if pool is None:
-            pool = common if draw(st.integers(0, 2)) else nonoffset
-        u = draw(st.sampled_from(pool))
-        if draw(st.integers(0, 9)) < 4:
-            return ('a', prefix(draw) + u)
+            pool = common if src.below(3) else nonoffset
+        u = src.pick(pool)
+        if src.below(10) < 4:
+            return ('a', prefix() + u)
         return ('a', u)
 
-    def tree(draw, depth):
-        if depth <= 0 or draw(st.integers(0, 9)) < 2:
-            return atom(draw)
-        k = draw(st.sampled_from(['mul', 'mul', 'div', 'div', 'div', 'pow', 'root', 'num', 'num']))
+    def tree(depth):
+        if depth <= 0 or src.below(10) < 2:
+            return atom()
+        k = src.pick(['mul', 'mul', 'div', 'div', 'div', 'pow', 'root', 'num', 'num'])
         if k in ('mul', 'div'):
-            return (k, tree(draw, depth - 1), tree(draw, depth - 1))
+            return (k, tree(depth - 1), tree(depth - 1))
         if k == 'pow':
-            return ('pow', tree(draw, depth - 1), draw(st.sampled_from([2, 3, -1, -2, -3, 2, -1, 4])))
+            return ('pow', tree(depth - 1), src.pick([2, 3, -1, -2, -3, 2, -1, 4]))
         if k == 'root':
-            n = draw(st.sampled_from([2, 2, 2, 3, 4, 5, -2]))
-            e = tree(draw, depth - 2)
-            form = draw(st.integers(0, 2))
+            n = src.pick([2, 2, 2, 3, 4, 5, -2])
+            e = tree(depth - 2)
+            form = src.below(3)
             if form == 0 or abs(n) != 2:
-                inner = ('pow', e, abs(n) * draw(st.sampled_from([1, 1, 1, 2])))
+                inner = ('pow', e, abs(n) * src.pick([1, 1, 1, 2]))
             elif form == 1:
-                inner = ('mul', e, respell(draw, e))
+                inner = ('mul', e, respell(e))
             else:
-                inner = ('div', e, respell(draw, e))
-            return ('root', inner, n, draw(st.sampled_from(ROOT_TEXT[n])))
-        num = draw(st.sampled_from(NUMBERS))
-        return (draw(st.sampled_from(['nmul', 'nmul', 'muln', 'divn', 'ndiv'])), num, tree(draw, depth - 1))
+                inner = ('div', e, respell(e))
+            return ('root', inner, n, src.pick(ROOT_TEXT[n]))
+        num = src.pick(NUMBERS)
+        return (src.pick(['nmul', 'nmul', 'muln', 'divn', 'ndiv']), num, tree(depth - 1))
 
-    def respell(draw, t):
+    def respell(t):
         """Same tree, every atom replaced by a unit of the same dimension (random prefix)."""
         if t[0] == 'a':
             st_, r = ref_of(L, t[1])
             if st_ != 'valid':
                 return t
-            return atom(draw, by_dim.get(r.powers) or [t[1]])
+            return atom(by_dim.get(r.powers) or [t[1]])
         if t[0] in ('mul', 'div'):
-            return (t[0], respell(draw, t[1]), respell(draw, t[2]))
+            return (t[0], respell(t[1]), respell(t[2]))
         if t[0] == 'pow':
-            return ('pow', respell(draw, t[1]), t[2])
+            return ('pow', respell(t[1]), t[2])
         if t[0] == 'root':
-            return ('root', respell(draw, t[1]), t[2], draw(st.sampled_from(ROOT_TEXT[t[2]])))
-        return (t[0], draw(st.sampled_from(NUMBERS)) if draw(st.booleans()) else t[1], respell(draw, t[2]))
+            return ('root', respell(t[1]), t[2], src.pick(ROOT_TEXT[t[2]]))
+        return (t[0], src.pick(NUMBERS) if src.bit() else t[1], respell(t[2]))
 
-    def render(draw, t, tight=False):
+    def render(t, tight=False):
         k = t[0]
         if k == 'a':
             return t[1]
         if k == 'mul':
-            s = render(draw, t[1]) + '*' + render(draw, t[2], True)
+            s = render(t[1]) + '*' + render(t[2], True)
         elif k == 'div':
-            s = render(draw, t[1]) + '/' + render(draw, t[2], True)
+            s = render(t[1]) + '/' + render(t[2], True)
         elif k == 'pow':
-            e = str(t[2]) if (t[2] > 0 or draw(st.booleans())) else f"({t[2]})"
+            e = str(t[2]) if (t[2] > 0 or src.bit()) else f"({t[2]})"
             if t[1][0] == 'a':
                 return t[1][1] + '**' + e
-            return '(' + render(draw, t[1]) + ')**' + e
+            return '(' + render(t[1]) + ')**' + e
         elif k == 'root':
-            return ('(' + render(draw, t[1]) + ')' if t[1][0] != 'a' else t[1][1]) + '**' + t[3]
+            return ('(' + render(t[1]) + ')' if t[1][0] != 'a' else t[1][1]) + '**' + t[3]
         elif k == 'nmul':
-            s = t[1] + '*' + render(draw, t[2], True)
+            s = t[1] + '*' + render(t[2], True)
         elif k == 'muln':
-            s = render(draw, t[2], True) + '*' + t[1]
+            s = render(t[2], True) + '*' + t[1]
         elif k == 'divn':
-            s = render(draw, t[2], True) + '/' + t[1]
+            s = render(t[2], True) + '/' + t[1]
         else:
-            s = t[1] + '/' + render(draw, t[2], True)
-        if tight or draw(st.integers(0, 9)) == 0:
+            s = t[1] + '/' + render(t[2], True)
+        if tight or src.below(10) == 0:
             return '(' + s + ')'
         return s
 
-    def spaced(draw, s):
-        if draw(st.integers(0, 14)) == 0:
+    def spaced(s):
+        if src.below(15) == 0:
             s = re.sub(r'(?<!\*)([*/])(?!\*)', r' \1 ', s)
-            if draw(st.booleans()):
+            if src.bit():
                 s = ' ' + s + ' '
         return s
 
-    def temperature(draw):
-        u = draw(st.sampled_from(temp_class + offset_names))
-        if u not in offset_names and draw(st.integers(0, 3)) == 0:
-            return prefix(draw) + u
+    def temperature():
+        u = src.pick(temp_class + offset_names)
+        if u not in offset_names and src.below(4) == 0:
+            return prefix() + u
         return u
 
-    def warm_list(draw, exprs):
+    def warm_list(exprs):
+        if src.below(10) < 3:
+            return []
         cands = []
         for s in exprs:
             for t in L.info(s)['unit_names']:
@@ -763,66 +795,81 @@ def strategy():
                         cands.append(t[cut:])
                 cands.append(t)
                 for p in ('a', 'k', 'm'):
-                    if L.resolutions(p + t) and L.resolutions(p + t)[0][0] == 'pre':
+                    r = L.resolutions(p + t)
+                    if r and r[0][0] == 'pre':
                         cands.append(p + t)
             cands.append(s)
-        mode = draw(st.integers(0, 9))
-        if mode < 3:
-            return []
         out = []
-        for _ in range(draw(st.integers(1, 4))):
-            w = draw(st.integers(0, 5))
+        for _ in range(1 + src.below(4)):
+            w = src.below(6)
             if w <= 2 and cands:
-                out.append(draw(st.sampled_from(cands)))
+                out.append(src.pick(cands))
             elif w == 3:
-                out.append(draw(st.sampled_from(hot)) + draw(st.sampled_from(common)))
+                out.append(src.pick(hot) + src.pick(common))
             elif w == 4:
-                out.append(draw(st.sampled_from(STD_WARM)))
+                out.append(src.pick(STD_WARM))
             else:
-                out.append(render(draw, tree(draw, 1)))
+                out.append(render(tree(1)))
         return out
 
-    def values(draw):
-        # magnitudes 1e-6..1e6 (or the listed special values): no subnormal products at factor ratios <= 1e120
-        mag = st.floats(1e-6, 1e6, allow_nan=False, width=64)
-        return [draw(st.one_of(st.sampled_from(VALUES), mag, mag.map(lambda v: -v)))
-                for _ in range(draw(st.integers(1, 2)))]
+    def values():
+        # special values, or +-(1.000 .. 9.999) * 10**(-6..5): no subnormal products at factor ratios <= 1e120
+        out = []
+        for _ in range(1 + src.below(2)):
+            if src.below(3) == 0:
+                out.append(src.pick(VALUES))
+            else:
+                v = (1000 + src.below(9000)) / 1000.0 * 10.0 ** (src.below(12) - 6)
+                out.append(-v if src.bit() else v)
+        return out
 
-    @st.composite
-    def case(draw):
-        kind = draw(st.sampled_from(['pair', 'pair', 'pair', 'triple', 'expr', 'expr']))
-        n = {'expr': 1, 'pair': 2, 'triple': 3}[kind]
-        if kind != 'expr' and draw(st.integers(0, 7)) == 0:
-            exprs = [temperature(draw) for _ in range(n)]
-        else:
-            t = tree(draw, draw(st.sampled_from([1, 2, 2, 3])))
-            exprs = [spaced(draw, render(draw, t))]
-            for _ in range(n - 1):
-                how = draw(st.integers(0, 9))
-                if how < 6:
-                    t2 = respell(draw, t)
-                elif how < 7:
-                    t2 = ('mul', respell(draw, t), ('div', atom(draw, ['m', 'ft', 'inch']), atom(draw, ['m', 'mi'])))
-                elif how < 8:
-                    t2 = t
-                else:
-                    t2 = tree(draw, draw(st.sampled_from([0, 1, 2])))
-                exprs.append(spaced(draw, render(draw, t2)))
-            if kind == 'expr' and draw(st.integers(0, 11)) == 0:
-                # unjudged region: an offset unit inside a composite
-                exprs = [render(draw, (draw(st.sampled_from(['mul', 'div'])), tree(draw, 1),
-                                       ('a', draw(st.sampled_from(offset_names)))))]
-        c = {'kind': kind, 'warm': warm_list(draw, exprs)}
-        if kind == 'expr':
-            c['s'] = exprs[0]
-        else:
-            c['a'], c['b'] = exprs[0], exprs[1]
-            if kind == 'triple':
-                c['c'] = exprs[2]
-            c['x'] = values(draw)
-        return c
+    kind = src.pick(['pair', 'pair', 'pair', 'triple', 'expr', 'expr'])
+    n = {'expr': 1, 'pair': 2, 'triple': 3}[kind]
+    if kind != 'expr' and src.below(8) == 0:
+        exprs = [temperature() for _ in range(n)]
+    else:
+        t = tree(src.pick([1, 2, 2, 3]))
+        exprs = [spaced(render(t))]
+        for _ in range(n - 1):
+            how = src.below(10)
+            if how < 6:
+                t2 = respell(t)
+            elif how < 7:
+                t2 = ('mul', respell(t), ('div', atom(['m', 'ft', 'inch']), atom(['m', 'mi'])))
+            elif how < 8:
+                t2 = t
+            else:
+                t2 = tree(src.pick([0, 1, 2]))
+            exprs.append(spaced(render(t2)))
+        if kind == 'expr' and src.below(12) == 0:
+            # unjudged region: an offset unit inside a composite
+            exprs = [render((src.pick(['mul', 'div']), tree(1), ('a', src.pick(offset_names))))]
+    c = {'kind': kind, 'warm': warm_list(exprs)}
+    if kind == 'expr':
+        c['s'] = exprs[0]
+    else:
+        c['a'], c['b'] = exprs[0], exprs[1]
+        if kind == 'triple':
+            c['c'] = exprs[2]
+        c['x'] = values()
+    return c
 
-    return case()
+
+def grammar_tables():
+    _, L = _ctx()
+    nonoffset = [n for n in L.names if L.lib_unit(n).offset == 0]
+    return {'L': L, 'nonoffset': nonoffset,
+            'offset_names': [n for n in L.names if L.lib_unit(n).offset != 0],
+            'common': [n for n in COMMON if n in L.nameset and n in nonoffset],
+            'prefixes': list(L.prefixes), 'by_dim': L.classes_by_dimension(nonoffset),
+            'temp_class': [n for n in L.names if L.lib_unit(n).powers == L.lib_unit('K').powers],
+            'hot': [p for p in HOT_PREFIXES if p in L.prefixes]}
+
+
+def strategy():
+    from hypothesis import strategies as st
+    G = grammar_tables()
+    return st.binary(min_size=192, max_size=192).map(lambda data: build_case(data, G))
 
 
 # ---------------------------------------------------------------------------------------------
@@ -830,33 +877,30 @@ def strategy():
 # ---------------------------------------------------------------------------------------------
 
 def units(tier, seed):
-    us = [{'kind': 'anchors'}]
-    for p in range(4):
-        us.append({'kind': 'libpairs', 'part': p, 'nparts': 4, 'warm': False})
-    for p in range(4):
-        us.append({'kind': 'libpairs', 'part': p, 'nparts': 4, 'warm': True})
-    us.append({'kind': 'classtriples', 'part': 0, 'nparts': 1})
-    for p in range(4):
-        us.append({'kind': 'atoms', 'part': p, 'nparts': 4})
-    nrand = 16
-    per = 2500 if tier == 'quick' else 30000
+    # a worker costs 1-2 s of imports, so the cheap enumerations share four workers
+    us = [{'kind': 'enum', 'what': [['anchors'], ['classtriples', 0, 1], ['libpairs', 0, 2, False]]},
+          {'kind': 'enum', 'what': [['libpairs', 1, 2, False], ['atoms', 0, 2]]},
+          {'kind': 'enum', 'what': [['libpairs', 0, 2, True], ['atoms', 1, 2]]},
+          {'kind': 'enum', 'what': [['libpairs', 1, 2, True]]}]
+    nrand = 12 if tier == 'quick' else 16
+    per = 6000 if tier == 'quick' else 60000
     for i in range(nrand):
         us.append({'kind': 'random', 'n': per, 'seed': core.shard_seed(seed, ID, i)})
     return us
 
 
 def run_unit(unit, ctx):
-    k = unit['kind']
-    if k == 'anchors':
-        core.run_cases(ctx, enum_anchors(), check)
-        if ctx.classes.get('reference-disagrees-with-anchor'):
-            ctx.harness_error('the reference evaluator of unit_library.ini disagrees with an exact anchor fact')
-    elif k == 'libpairs':
-        core.run_cases(ctx, enum_libpairs(unit['part'], unit['nparts'], STD_WARM if unit['warm'] else [],
-                                          unit.get('same', False)), check)
-    elif k == 'classtriples':
-        core.run_cases(ctx, enum_classtriples(unit['part'], unit['nparts']), check)
-    elif k == 'atoms':
-        core.run_cases(ctx, enum_atoms(unit['part'], unit['nparts']), check)
-    elif k == 'random':
+    if unit['kind'] == 'random':
         core.run_hypothesis(ctx, strategy(), check, unit['n'], unit['seed'], shrink=unit.get('tier') == 'thorough')
+        return
+    for w in unit['what']:
+        if w[0] == 'anchors':
+            core.run_cases(ctx, enum_anchors(), check)
+            if ctx.classes.get('reference-disagrees-with-anchor'):
+                ctx.harness_error('the reference evaluator of unit_library.ini disagrees with an exact anchor fact')
+        elif w[0] == 'libpairs':
+            core.run_cases(ctx, enum_libpairs(w[1], w[2], STD_WARM if w[3] else []), check)
+        elif w[0] == 'classtriples':
+            core.run_cases(ctx, enum_classtriples(w[1], w[2]), check)
+        elif w[0] == 'atoms':
+            core.run_cases(ctx, enum_atoms(w[1], w[2]), check)
